@@ -256,6 +256,8 @@ def run(tier):
         if out != "%d %d" % (v, 2 * v):
             cmism += 1; ck.violation("named-length", "size-of arrays with named length %d prints '%s', expected '%d %d'" % (v, out, v, 2 * v), src)
     ck.log("constants: %d programs compared, %d problems" % (ccmp, cmism))
+    from . import c12
+    c12.check_leaks(ck)
     if not proof_ok:
         ck.violation("tie-broken:proof", "Props/C10.v no longer checks", getattr(ck, "proof_output", "")[-2000:])
     ck.coverage.update(
